@@ -1,0 +1,60 @@
+//go:build verif
+
+// Contracts for package ord, read by /verif's gobtvc. Comment-only; compiled only with -tags verif.
+
+package ord
+
+// Assumption: an Unlocker computes an unlocking script and writes no memory that existed before the call (in particular it
+// does not modify the transaction it is handed). Not checked of the library's own implementation (unlocker.Simple calls
+// the external signing code).
+//@ ifaces ^bt\.Unlocker\.
+//@   assigns
+//@   trusted "an Unlocker writes no memory that existed before the call"
+
+//@ func ord.(*ValidateListingArgs).Validate
+//@   pure
+//@   requires (not (nil? pstx))
+//@   requires (forall ((k Int)) (=> (and (<= 0 k) (< k (len (. pstx Inputs)))) (not (nil? (at (. pstx Inputs) k)))))
+//@   ensures[C20.validate_shape] (=> result (and (= (len (. pstx Inputs)) 1) (= (len (. pstx Outputs)) 1)))
+
+// ---- C20 (partial): structure of the completed sale transaction ----
+//@ func ord.AcceptOrdinalSaleListing
+//@   bytes array
+//@   opt index-fn 1
+//@   requires (and (not (nil? vla)) (not (nil? asoa)) (not (nil? (. asoa PSTx))) (not (nil? (. asoa FQ))))
+//@   requires (forall ((k Int)) (=> (and (<= 0 k) (< k (len (. (. asoa PSTx) Inputs)))) (not (nil? (at (. (. asoa PSTx) Inputs) k)))))
+//@   requires (forall ((k Int)) (=> (and (<= 0 k) (< k (len (. (. asoa PSTx) Outputs)))) (not (nil? (at (. (. asoa PSTx) Outputs) k)))))
+//@   requires (forall ((k Int)) (=> (and (<= 0 k) (< k (len (. asoa UTXOs)))) (and (not (nil? (at (. asoa UTXOs) k))) (not (nil? (. (at (. asoa UTXOs) k) Unlocker))))))
+//@   ensures[C20.seller_at_index_1] (=> (= err nil) (and (not (nil? result)) (>= (len (. result Inputs)) 3) (>= (len (. result Outputs)) 3) (= (at (. result Inputs) 1) (old (at (. (. asoa PSTx) Inputs) 0))) (= (at (. result Outputs) 1) (old (at (. (. asoa PSTx) Outputs) 0)))))
+//@   ensures[C20.seller_output_unchanged] (=> (= err nil) (and (= (. (at (. result Outputs) 1) Satoshis) (old (. (at (. (. asoa PSTx) Outputs) 0) Satoshis))) (= (. (at (. result Outputs) 1) LockingScript) (old (. (at (. (. asoa PSTx) Outputs) 0) LockingScript)))))
+//@   ensures[C20.buyer_gets_ordinal_output] (=> (= err nil) (and (not (nil? (at (. result Outputs) 2))) (= (. (at (. result Outputs) 2) LockingScript) (old (. asoa BuyerReceiveOrdinalScript))) (= (. (at (. result Outputs) 2) Satoshis) 1)))
+//@   ensures[C20.ordinal_satoshi_fifo] (=> (= err nil) (= (+ (. (at (. result Outputs) 0) Satoshis) (. (at (. result Outputs) 1) Satoshis)) (. (at (. result Inputs) 0) PreviousTxSatoshis)))
+//@   loop 0 invariant (not validUTXOFound)
+//@   loop 1 invariant (and (not (nil? tx)) (>= (len (. tx Inputs)) 3) (>= (len (. tx Outputs)) 3))
+//@   loop 1 invariant (= (at (. tx Inputs) 1) (old (at (. (. asoa PSTx) Inputs) 0)))
+//@   loop 1 invariant (= (at (. tx Outputs) 1) (old (at (. (. asoa PSTx) Outputs) 0)))
+//@   loop 1 invariant (and (= (. (at (. tx Outputs) 1) Satoshis) (old (. (at (. (. asoa PSTx) Outputs) 0) Satoshis))) (= (. (at (. tx Outputs) 1) LockingScript) (old (. (at (. (. asoa PSTx) Outputs) 0) LockingScript))))
+//@   loop 1 invariant (and (not (nil? (at (. tx Outputs) 2))) (= (. (at (. tx Outputs) 2) LockingScript) (old (. asoa BuyerReceiveOrdinalScript))) (= (. (at (. tx Outputs) 2) Satoshis) 1))
+//@   loop 1 invariant (= (+ (. (at (. tx Outputs) 0) Satoshis) (. (at (. tx Outputs) 1) Satoshis)) (. (at (. tx Inputs) 0) PreviousTxSatoshis))
+//@   loop 1 invariant (forall ((k Int)) (=> (and (<= 0 k) (< k (len (. asoa UTXOs)))) (and (not (nil? (at (. asoa UTXOs) k))) (not (nil? (. (at (. asoa UTXOs) k) Unlocker))))))
+
+// the two-dummy variant: dummy inputs 0 and 1, seller's input and output at index 2, the ordinal goes to output 1
+//@ func ord.AcceptOrdinalSaleListing2Dummies
+//@   bytes array
+//@   opt index-fn 1
+//@   requires (and (not (nil? vla)) (not (nil? asoa)) (not (nil? (. asoa PSTx))) (not (nil? (. asoa FQ))))
+//@   requires (forall ((k Int)) (=> (and (<= 0 k) (< k (len (. (. asoa PSTx) Inputs)))) (not (nil? (at (. (. asoa PSTx) Inputs) k)))))
+//@   requires (forall ((k Int)) (=> (and (<= 0 k) (< k (len (. (. asoa PSTx) Outputs)))) (not (nil? (at (. (. asoa PSTx) Outputs) k)))))
+//@   requires (forall ((k Int)) (=> (and (<= 0 k) (< k (len (. asoa UTXOs)))) (and (not (nil? (at (. asoa UTXOs) k))) (not (nil? (. (at (. asoa UTXOs) k) Unlocker))))))
+//@   requires (=> (>= (len (. asoa UTXOs)) 2) (< (+ (. (at (. asoa UTXOs) 0) Satoshis) (. (at (. asoa UTXOs) 1) Satoshis)) 18446744073709551616))
+//@   ensures[C20.seller_at_index_2] (=> (= err nil) (and (and (not (nil? result)) (>= (len (. result Inputs)) 4) (>= (len (. result Outputs)) 3)) (= (at (. result Inputs) 2) (old (at (. (. asoa PSTx) Inputs) 0))) (= (at (. result Outputs) 2) (old (at (. (. asoa PSTx) Outputs) 0)))))
+//@   ensures[C20.seller_output_unchanged_2d] (=> (= err nil) (and (= (. (at (. result Outputs) 2) Satoshis) (old (. (at (. (. asoa PSTx) Outputs) 0) Satoshis))) (= (. (at (. result Outputs) 2) LockingScript) (old (. (at (. (. asoa PSTx) Outputs) 0) LockingScript)))))
+//@   ensures[C20.buyer_gets_ordinal_output_2d] (=> (= err nil) (and (not (nil? (at (. result Outputs) 1))) (= (. (at (. result Outputs) 1) LockingScript) (old (. asoa BuyerReceiveOrdinalScript))) (= (. (at (. result Outputs) 1) Satoshis) 1)))
+//@   ensures[C20.ordinal_satoshi_fifo_2d] (=> (= err nil) (= (. (at (. result Outputs) 0) Satoshis) (+ (. (at (. result Inputs) 0) PreviousTxSatoshis) (. (at (. result Inputs) 1) PreviousTxSatoshis))))
+//@   loop 0 invariant (and (not (nil? tx)) (>= (len (. tx Inputs)) 4) (>= (len (. tx Outputs)) 3))
+//@   loop 0 invariant (= (at (. tx Inputs) 2) (old (at (. (. asoa PSTx) Inputs) 0)))
+//@   loop 0 invariant (= (at (. tx Outputs) 2) (old (at (. (. asoa PSTx) Outputs) 0)))
+//@   loop 0 invariant (and (= (. (at (. tx Outputs) 2) Satoshis) (old (. (at (. (. asoa PSTx) Outputs) 0) Satoshis))) (= (. (at (. tx Outputs) 2) LockingScript) (old (. (at (. (. asoa PSTx) Outputs) 0) LockingScript))))
+//@   loop 0 invariant (and (not (nil? (at (. tx Outputs) 1))) (= (. (at (. tx Outputs) 1) LockingScript) (old (. asoa BuyerReceiveOrdinalScript))) (= (. (at (. tx Outputs) 1) Satoshis) 1))
+//@   loop 0 invariant (= (. (at (. tx Outputs) 0) Satoshis) (+ (. (at (. tx Inputs) 0) PreviousTxSatoshis) (. (at (. tx Inputs) 1) PreviousTxSatoshis)))
+//@   loop 0 invariant (forall ((k Int)) (=> (and (<= 0 k) (< k (len (. asoa UTXOs)))) (and (not (nil? (at (. asoa UTXOs) k))) (not (nil? (. (at (. asoa UTXOs) k) Unlocker))))))
